@@ -49,8 +49,15 @@ def gen_unit(rng):
         cur = eg.Scope(cur.dot, cur.parents, cur.vars, cur.macros, dict(cur.sels, **{"c%d" % i: "any"}), True)
     args += out
     args += ["--regular-expression-cache-size", str(rng.choice((0, 0, 1, 2)))]
-    A = [eg.gen_input(rng) for _ in range(rng.choice((0, 1, 1, 2, 5, 20)))]
-    B = [eg.gen_input(rng) for _ in range(rng.choice((0, 1, 2, 5, 20)))]
+    def seq(n, before=None):
+        out = []
+        for _ in range(n):
+            prev = out[-1] if out else before
+            # sometimes the previous value again with its members in the opposite order: equal for jawk, different text
+            out.append(jm.twin(prev) if prev is not None and rng.random() < 0.2 else eg.gen_input(rng))
+        return out
+    A = seq(rng.choice((0, 1, 1, 2, 5, 20)))
+    B = seq(rng.choice((0, 1, 2, 5, 20)), A[-1] if A else None)
     return {"args": args, "A": [jm.dumps(v) for v in A], "B": [jm.dumps(v) for v in B], "headers": ("csv" in out or "--headers" in out),
             "funcs": sorted(g.used)}
 
